@@ -12,7 +12,7 @@ EXTRACT = ["FDS", "C02W"]
 BINS = ["c02w"]
 NEEDS_CICADA = True
 ALLOWED_AXIOMS = []
-PINNED = ["C02_full", "C02_wiring", "C02_eof", "C02_once_and_shell_holds_nothing", "C02_wait", "C02_wait_order_independent"]
+PINNED = ["C02_full", "C02_wiring", "C02_eof", "C02_stage_signals", "C02_once_and_shell_holds_nothing", "C02_wait", "C02_wait_order_independent"]
 TRUSTED = R.TRUSTED
 ASSUMES = R.ASSUMES
 WEIGHTS = {"builtin": 0.12, "notfound": 0.08, "here": 0.12, "from": 0.05, "redir": 0.1, "maxredir": 1, "capture": 0.1,
@@ -106,6 +106,81 @@ def bytes_and_orders(ctx, res):
                             note="pipeline does not deliver the bytes / finish / report the last stage's status")
 
 
+def signal_runs(ctx, res):
+    """Signal dispositions of every stage at its start (helpers/sg reads SigIgn from /proc/self/status), for every stage
+    position with and without a here-string anywhere in the pipeline; and a here-string stage on a NON-LAST position that
+    writes several pipe buffers to a downstream that exits without reading: it must be KILLED by SIGPIPE (no end record),
+    not see EPIPE, and the pipeline must finish."""
+    hp = os.path.join(ctx.helpers, "hp")
+    sg = os.path.join(ctx.helpers, "sg")
+    PIPE, INT, QUIT, TSTP = 1 << 12, 1 << 1, 1 << 2, 1 << 19
+    cases = []
+    # (a) dispositions: n = 1..4 stages, a here-string on each subset of positions of size <= 1, plus all positions
+    for n in range(1, 5):
+        here_sets = [set()] + [{i} for i in range(n)] + ([set(range(n))] if n > 1 else [])
+        for hs in here_sets:
+            st = ["%s A.%d%s" % (sg, i, " <<< w%d" % i if i in hs else "") for i in range(n)]
+            cases.append(("disp", " | ".join(st), n, sorted(hs)))
+    # (b) here-string stage writes 300000 bytes, the next stage exits at once without reading
+    for n in (2, 3):
+        for pos in range(n - 1):
+            st = []
+            for i in range(n):
+                if i == pos:
+                    st.append("%s A.%d w300000 <<< word" % (sg, i))
+                elif i == pos + 1:
+                    st.append("%s @x0 B.%d" % (hp, i))
+                elif i < pos:
+                    st.append("%s @ B.%d" % (hp, i))
+                else:
+                    st.append("%s @r B.%d" % (hp, i))
+            cases.append(("epipe", " | ".join(st), n, [pos]))
+    bad = 0
+    for kind, body, n, hs in cases:
+        work = tempfile.mkdtemp(prefix="c02s_")
+        try:
+            F.setup_work(work, ())
+            t0 = time.time()
+            rc, recs = F.run_real(ctx.cicada, "%s ; %s @x$? S.0" % (body, hp), work, timeout=30)
+            dt = time.time() - t0
+            sgrecs = {}
+            for l in open(os.path.join(work, "trace"), errors="replace"):
+                if l.startswith("sg\t"):
+                    kv = dict(f.split("=", 1) for f in l.rstrip("\n").split("\t")[1:] if "=" in f)
+                    sgrecs.setdefault(kv.get("tag"), {}).update(kv)
+        finally:
+            shutil.rmtree(work, ignore_errors=True)
+        res.count("L2_signals", 1)
+        res.nontrivial("c02sig:%s:%d:%s" % (kind, n, hs))
+        probs = []
+        if rc == "TIMEOUT":
+            probs.append("the pipeline did not finish")
+        for i in range(n):
+            tag = "A.%d" % i
+            if kind == "epipe" and i != hs[0]:
+                continue
+            r = sgrecs.get(tag)
+            if r is None or "sigign" not in r:
+                probs.append("stage %d did not start" % i)
+                continue
+            ign = int(r["sigign"], 16)
+            names = [nm for nm, bit in (("SIGPIPE", PIPE), ("SIGINT", INT), ("SIGQUIT", QUIT), ("SIGTSTP", TSTP)) if ign & bit]
+            if names:
+                probs.append("stage %d starts with %s ignored (SigIgn %s)" % (i, ",".join(names), r["sigign"]))
+            if kind == "epipe":
+                if r.get("end") == "err":
+                    probs.append("stage %d (here-string, downstream gone) got a write error errno=%s after %s bytes instead of "
+                                 "being killed by SIGPIPE" % (i, r.get("errno"), r.get("wrote")))
+                elif r.get("end") == "ok":
+                    probs.append("stage %d wrote all 300000 bytes although its reader exited without reading" % i)
+        if probs:
+            bad += 1
+            if bad <= 3:
+                res.violate(kind="oracle", layer="L2", input=body.replace(sg, "sg").replace(hp, "hp"), observed=probs,
+                            wall_s=round(dt, 2), failing_input=True,
+                            note="a pipeline stage does not start with the default signal dispositions (SIGPIPE / SIGINT / SIGQUIT / SIGTSTP)")
+
+
 def run(ctx, res):
     res.rule = ("L1: wait_fg_job on injected wait-status schedules (every finishing order for n<=4); L2: helper pipelines "
                 "n=1..6 x payloads 0..300 KiB, all finishing orders n<=4 by delays, non-reading stages, builtins / not-found "
@@ -113,6 +188,7 @@ def run(ctx, res):
                 "pipe ends per stage); L3: strace vs model for n=1..6 plain, here-string on each stage, redirections")
     c02w_l1.run_l1(ctx, res)
     bytes_and_orders(ctx, res)
+    signal_runs(ctx, res)
     R.run_sequences(ctx, res, "C02", [[R.PRELUDE()] + [R.S([R.E(0), R.E(1, True, frm="h")])]], "herestring")
     R.run_sequences(ctx, res, "C02", R.gen_sequences(ctx, 150 if ctx.thorough else 25, 3, WEIGHTS), "seq")
     R.run_sequences(ctx, res, "C02", R.l3_cases(ctx), "l3", strace=True)
